@@ -95,7 +95,17 @@ def cpp_nonce_lines(rng, tier):
     lines = p_c17.gen_cpx(rng, tier)[0]
     keep = [l for l in lines if (" SN:" in l or " SC:" in l)]
     rng.shuffle(keep)
-    return keep[:120 if tier == "quick" else 1500]
+    keep = keep[:120 if tier == "quick" else 1500]
+    # per class: an empty nonce (NULL,0 and ptr,0) set on an object whose held nonce is not zero any more (after set_nonce / set_counter and
+    # a packet) must give the all-zero nonce, and a short nonce must be right-aligned over zeroes whatever was held before
+    from common import hx, rnd_bytes
+    for cls, (klen, fam) in p_c17.CLASSES.items():
+        k = hx(rnd_bytes(rng, klen))
+        kt = "KL:%s:%d" % (k, klen) if fam == "isap" else "K:%s" % k
+        pkt = lambda: "E:%s:%s" % (hx(rnd_bytes(rng, 3)), hx(rnd_bytes(rng, 9)))
+        keep.append("CPX %s %s SN:%s:16 %s SN:NULL:0 %s" % (cls, kt, hx(rnd_bytes(rng, 16)), pkt(), pkt()))
+        keep.append("CPX %s %s SC:%x %s SN:-:0 %s SN:%s:5 %s" % (cls, kt, rng.randrange(1, 2 ** 64), pkt(), pkt(), hx(rnd_bytes(rng, 5)), pkt()))
+    return keep
 
 
 def nonces(out):
